@@ -19,36 +19,57 @@ static void drive(int cap);
 static void add_guard(struct cmb_resourceguard *g, int type, int obj) { GD[ngd].g = g; GD[ngd].type = type; GD[ngd].obj = obj; GD[ngd].nsnap = 0; ngd++; }
 static void add_rec(int cls, int obj) { memset(&REC[nrec], 0, sizeof REC[nrec]); REC[nrec].cls = cls; REC[nrec].obj = obj; nrec++; }
 
+/* LIFE > 0: the objects of the world exist already, in whatever state the previous life left them (units out, queues and waiting lists
+ * populated, recording on); each one is terminated and initialised again, the event queue likewise, and new processes are created. */
+static int LIFE; static bool capped;
 static void world_setup(void)
 {
     static const uint64_t bufcaps[] = { 1, 3, 7, CMB_UNLIMITED, UINT64_MAX - 2 };
     static const uint64_t qcaps[] = { 1, 2, 5, CMB_UNLIMITED };
     int P = PROFILE;
+    const bool again = LIFE > 0;
     bool wide = vr_chance(&G, 1, 6) || P == 10;
     NP = wide ? 9 + (int)vr_below(&G, 32) : 2 + (int)vr_below(&G, 11);
+    int keep[6] = { NR, NPL, NB, NOQ, NPQ, NCV };
     NR = (P == 1 || P == 0 || P == 5) ? 1 + (int)vr_below(&G, 2) : (P == 3 || P == 6 || P == 7) ? 0 : (int)vr_below(&G, 3);
     NPL = (P == 3) ? 1 + (int)vr_below(&G, 2) : (P == 1 || P == 6 || P == 7) ? 0 : (int)vr_below(&G, 3);
     NB = (P == 6) ? 1 + (int)vr_below(&G, 2) : (P == 1 || P == 3 || P == 7) ? 0 : (int)vr_below(&G, 3);
     NOQ = (P == 7) ? 1 + (int)vr_below(&G, 2) : (P == 1 || P == 3 || P == 6) ? 0 : (int)vr_below(&G, 3);
     NPQ = (P == 7) ? 1 + (int)vr_below(&G, 2) : (P == 1 || P == 3 || P == 6) ? 0 : (int)vr_below(&G, 3);
     NCV = (P == 8) ? 1 + (int)vr_below(&G, 2) : (P == 1 || P == 3 || P == 6 || P == 7) ? 0 : (int)vr_below(&G, 3);
+    if (P == 8 && vr_chance(&G, 1, 2)) { if (!NPQ) NPQ = 1; if (!NOQ) NOQ = 1; }      /* conditions watching queues */
     if (NR > MAXO) NR = MAXO; if (NPL > MAXO) NPL = MAXO; if (NB > MAXO) NB = MAXO; if (NOQ > MAXO) NOQ = MAXO; if (NPQ > MAXO) NPQ = MAXO; if (NCV > MAXO) NCV = MAXO;
+    if (again) { NR = keep[0]; NPL = keep[1]; NB = keep[2]; NOQ = keep[3]; NPQ = keep[4]; NCV = keep[5]; }
     static const double starts[] = { 0.0, 0.0, -100.0, 1e12 };
     T0 = starts[vr_below(&G, 4)];
+    if (again) {
+        /* the old lives end here: objects first (a dropped holder makes the library grant the resource to the next waiter of the old life:
+         * that wake-up goes into the old event queue and dies with it), the event queue last */
+        for (int k = 0; k < NCV; k++) for (int g = 0; g < ngd; g++) if (OBS[k][g]) { cmb_resourceguard_unregister(GD[g].g, &CV[k]->guard); OBS[k][g] = false; }
+        for (int i = 0; i < ngd; i++) for (int j = 0; j < ngd; j++) if (GOBS[i][j]) { cmb_resourceguard_unregister(GD[i].g, GD[j].g); GOBS[i][j] = false; }
+        for (int k = 0; k < NCV; k++) cmb_condition_terminate(CV[k]);
+        for (int k = 0; k < NR; k++) cmb_resource_terminate(RES[k]);
+        for (int k = 0; k < NPL; k++) cmb_resourcepool_terminate(POOL[k]);
+        for (int k = 0; k < NB; k++) cmb_buffer_terminate(BUF[k]);
+        for (int k = 0; k < NOQ; k++) cmb_objectqueue_terminate(OQ[k]);
+        for (int k = 0; k < NPQ; k++) cmb_priorityqueue_terminate(PQ[k]);
+        cmb_event_queue_terminate();
+    }
     cmb_event_queue_initialize(T0);
+    if (cmb_time() != T0 || !cmb_event_queue_is_empty()) VIOL("C01/second-life", "event queue initialised at %g: clock %g, %s", T0, cmb_time(), cmb_event_queue_is_empty() ? "empty" : "not empty");
     ngd = 0; nrec = 0; npev = 0; nled = 0; ncobl = 0; ncwk = 0; seqno = 0;
     char nm[40];
-    for (int k = 0; k < NR; k++) { RES[k] = cmb_resource_create(); snprintf(nm, sizeof nm, "res%d", k); cmb_resource_initialize(RES[k], nm); sh_res_holder[k] = -1; add_guard(&RES[k]->guard, GT_RES, k); add_rec(RC_RES, k); }
-    for (int k = 0; k < NPL; k++) { POOL[k] = cmb_resourcepool_create(); POOLCAP[k] = 1 + vr_below(&G, 8); if (vr_chance(&G, 1, 8)) { static const uint64_t huge[] = { UINT64_MAX, ((uint64_t)1 << 63) + 5, UINT64_MAX - 1 }; POOLCAP[k] = huge[vr_below(&G, 3)]; VR_CNT("pools_with_capacity_above_2_63"); } snprintf(nm, sizeof nm, "pool%d", k); cmb_resourcepool_initialize(POOL[k], nm, POOLCAP[k]); add_guard(&POOL[k]->guard, GT_POOL, k); add_rec(RC_POOL, k); for (int q = 0; q < MAXP; q++) { sh_pool[k][q] = 0; last_lib_pool[k][q] = 0; } ppre_pid[k] = -1; }
-    for (int k = 0; k < NB; k++) { BUF[k] = cmb_buffer_create(); BUFCAP[k] = bufcaps[vr_below(&G, 5)]; snprintf(nm, sizeof nm, "buf%d", k); cmb_buffer_initialize(BUF[k], nm, BUFCAP[k]); buf_last[k] = cmb_buffer_level(BUF[k]); buf_init[k] = buf_last[k]; buf_put_total[k] = buf_got_total[k] = 0; add_guard(&BUF[k]->front_guard, GT_BUFFRONT, k); add_guard(&BUF[k]->rear_guard, GT_BUFREAR, k); add_rec(RC_BUF, k); }
-    for (int k = 0; k < NOQ; k++) { OQ[k] = cmb_objectqueue_create(); OQCAP[k] = qcaps[vr_below(&G, 4)]; snprintf(nm, sizeof nm, "oq%d", k); cmb_objectqueue_initialize(OQ[k], nm, OQCAP[k]); oqn[k] = 0; add_guard(&OQ[k]->front_guard, GT_OQFRONT, k); add_guard(&OQ[k]->rear_guard, GT_OQREAR, k); add_rec(RC_OQ, k); }
-    for (int k = 0; k < NPQ; k++) { PQ[k] = cmb_priorityqueue_create(); PQCAP[k] = qcaps[vr_below(&G, 4)]; snprintf(nm, sizeof nm, "pq%d", k); cmb_priorityqueue_initialize(PQ[k], nm, PQCAP[k]); pqn[k] = 0; pq_ndead[k] = 0; add_guard(&PQ[k]->front_guard, GT_PQFRONT, k); add_guard(&PQ[k]->rear_guard, GT_PQREAR, k); add_rec(RC_PQ, k); }
+    for (int k = 0; k < NR; k++) { if (!again) RES[k] = cmb_resource_create(); snprintf(nm, sizeof nm, "res%d", k); cmb_resource_initialize(RES[k], nm); if (again && (cmb_resource_in_use(RES[k]) != 0 || cmb_resource_available(RES[k]) != 1)) VIOL("C05/in-use-after-reinitialize", "resource %d initialised again but in use", k); sh_res_holder[k] = -1; add_guard(&RES[k]->guard, GT_RES, k); add_rec(RC_RES, k); }
+    for (int k = 0; k < NPL; k++) { if (!again) POOL[k] = cmb_resourcepool_create(); POOLCAP[k] = 1 + vr_below(&G, 8); if (vr_chance(&G, 1, 8)) { static const uint64_t huge[] = { UINT64_MAX, ((uint64_t)1 << 63) + 5, UINT64_MAX - 1 }; POOLCAP[k] = huge[vr_below(&G, 3)]; VR_CNT("pools_with_capacity_above_2_63"); } snprintf(nm, sizeof nm, "pool%d", k); cmb_resourcepool_initialize(POOL[k], nm, POOLCAP[k]); if (again && (cmb_resourcepool_in_use(POOL[k]) != 0 || cmb_resourcepool_available(POOL[k]) != POOLCAP[k])) VIOL("C07/in-use-after-reinitialize", "pool %d initialised again with capacity %" PRIu64 ": in_use %" PRIu64 ", available %" PRIu64, k, POOLCAP[k], cmb_resourcepool_in_use(POOL[k]), cmb_resourcepool_available(POOL[k])); add_guard(&POOL[k]->guard, GT_POOL, k); add_rec(RC_POOL, k); for (int q = 0; q < MAXP; q++) { sh_pool[k][q] = 0; last_lib_pool[k][q] = 0; } ppre_pid[k] = -1; }
+    for (int k = 0; k < NB; k++) { if (!again) BUF[k] = cmb_buffer_create(); BUFCAP[k] = bufcaps[vr_below(&G, 5)]; snprintf(nm, sizeof nm, "buf%d", k); cmb_buffer_initialize(BUF[k], nm, BUFCAP[k]); if (again && (cmb_buffer_level(BUF[k]) != 0 || cmb_buffer_space(BUF[k]) != BUFCAP[k])) VIOL("C11/level-after-reinitialize", "buffer %d initialised again with capacity %" PRIu64 ": level %" PRIu64 ", space %" PRIu64, k, BUFCAP[k], cmb_buffer_level(BUF[k]), cmb_buffer_space(BUF[k])); buf_last[k] = cmb_buffer_level(BUF[k]); buf_init[k] = buf_last[k]; buf_put_total[k] = buf_got_total[k] = 0; add_guard(&BUF[k]->front_guard, GT_BUFFRONT, k); add_guard(&BUF[k]->rear_guard, GT_BUFREAR, k); add_rec(RC_BUF, k); }
+    for (int k = 0; k < NOQ; k++) { if (!again) OQ[k] = cmb_objectqueue_create(); OQCAP[k] = qcaps[vr_below(&G, 4)]; snprintf(nm, sizeof nm, "oq%d", k); cmb_objectqueue_initialize(OQ[k], nm, OQCAP[k]); if (again && (cmb_objectqueue_length(OQ[k]) != 0 || cmb_objectqueue_space(OQ[k]) != OQCAP[k])) VIOL("C12/length-after-reinitialize", "objectqueue %d initialised again: length %" PRIu64, k, cmb_objectqueue_length(OQ[k])); oqn[k] = 0; add_guard(&OQ[k]->front_guard, GT_OQFRONT, k); add_guard(&OQ[k]->rear_guard, GT_OQREAR, k); add_rec(RC_OQ, k); }
+    for (int k = 0; k < NPQ; k++) { if (!again) PQ[k] = cmb_priorityqueue_create(); PQCAP[k] = qcaps[vr_below(&G, 4)]; snprintf(nm, sizeof nm, "pq%d", k); cmb_priorityqueue_initialize(PQ[k], nm, PQCAP[k]); if (again && (cmb_priorityqueue_length(PQ[k]) != 0 || cmb_priorityqueue_space(PQ[k]) != PQCAP[k])) VIOL("C12/length-after-reinitialize", "priorityqueue %d initialised again: length %" PRIu64, k, cmb_priorityqueue_length(PQ[k])); pqn[k] = 0; pq_ndead[k] = 0; add_guard(&PQ[k]->front_guard, GT_PQFRONT, k); add_guard(&PQ[k]->rear_guard, GT_PQREAR, k); add_rec(RC_PQ, k); }
     int nobjguards = ngd;
     /* documented: any guard may observe another one (no cycles): a signal on i is forwarded to j and on to j's observers */
     memset(GOBS, 0, sizeof GOBS); memset(OBS, 0, sizeof OBS);
     if (nobjguards >= 2 && vr_chance(&G, 1, 3)) { int nlinks = 1 + (int)vr_below(&G, 2); for (int l = 0; l < nlinks; l++) { int i = (int)vr_below(&G, (uint64_t)nobjguards - 1); int j = i + 1 + (int)vr_below(&G, (uint64_t)(nobjguards - 1 - i)); if (!GOBS[i][j]) { cmb_resourceguard_register(GD[i].g, GD[j].g); GOBS[i][j] = true; VR_CNT("guard_observes_guard_links"); } } }
     for (int k = 0; k < NCV; k++) {
-        CV[k] = cmb_condition_create(); snprintf(nm, sizeof nm, "a-condition-with-a-long-name-%d", k); cmb_condition_initialize(CV[k], nm);
+        if (!again) CV[k] = cmb_condition_create(); snprintf(nm, sizeof nm, "a-condition-with-a-long-name-%d", k); cmb_condition_initialize(CV[k], nm);
         add_guard(&CV[k]->guard, GT_COND, k);
         /* observe every object guard: half through cmb_condition_subscribe, half through cmb_resourceguard_register */
         bool subset = vr_chance(&G, 1, 4);
@@ -70,6 +91,7 @@ static void world_setup(void)
     for (int k = 0; k < nrec; k++) if (vr_chance(&G, P == 9 ? 3 : 1, 4)) W_recording(NULL, k, true);
     vr_fp_mix((uint64_t)NP * 1000003u + (uint64_t)(NR + 3 * NPL + 9 * NB + 27 * NOQ + 81 * NPQ + 243 * NCV));
     VR_ADD("processes", NP); if (wide) VR_CNT("wide_worlds");
+    if (again) { VR_CNT("worlds_in_a_second_life"); for (int k = 0; k < nrec; k++) if (rec_lib_on(&REC[k]) != REC[k].on) VIOL("C14/recording-flag-after-reinitialize", "%s %d initialised again: the library says recording is %s", rcname[REC[k].cls], REC[k].obj, rec_lib_on(&REC[k]) ? "on" : "off"); }
 }
 
 static void world_teardown(void)
@@ -122,6 +144,7 @@ static void drive(int cap)
             if (!users) { VIOL("C09/event-fires-after-end", "an event addressed to process %d fires at t=%g although the process ended (%s) at t=%g and was not restarted", running_pid, next_t, routename[procs[running_pid].route], procs[running_pid].end_time); return; }
             VR_CNT("c09_user_events_about_ended_process_fired");
         }
+        trace_add("t=%.9g EV key=%" PRIu64 " pri=%" PRId64 " subj=P%d; ", next_t, q->heap[1].key, q->heap[1].isortkey, running_pid);
         if (!cmb_event_execute_next()) break;
         events++;
         if (cmb_time() < last_t) VIOL("C01/clock-decreased", "clock went from %g to %g", last_t, cmb_time());
@@ -129,7 +152,7 @@ static void drive(int cap)
         mon_after_event();
         if (events >= cap) {
             if (same_t > cap / 2) VIOL("C08/livelock", "more than %d consecutive events without the clock advancing (t=%g)", same_t, cmb_time());
-            else vr_inconclusive("event cap %d reached at t=%g", cap, cmb_time());
+            else { vr_inconclusive("event cap %d reached at t=%g", cap, cmb_time()); capped = true; }
             return;
         }
     }
@@ -146,11 +169,27 @@ void vr_case(uint64_t seed, uint64_t idx, int profile)
     trace_on = (idx % 199 == 0); tracelen = 0; tracebuf[0] = 0;
     if (profile >= 100) { directed(profile - 100); return; }
     if (PROFILE > 11) PROFILE = 11;
+    LIFE = 0; capped = false;
     world_setup();
     drive(50000);
     int blocked = 0, finished = 0;
     for (int k = 0; k < NP; k++) { if (procs[k].ended) finished++; else if (procs[k].in_call) blocked++; }
     VR_ADD("processes_finished", finished); VR_ADD("processes_blocked_at_exhaustion", blocked);
+    /* one world in four gets a second life on the same objects: after an orderly end (everybody stopped, processes destroyed) or after
+     * being cut off (the run is simply abandoned: processes stay suspended wherever they are, holding what they hold, and are never
+     * touched again) */
+    if (vr_nviol == 0 && !capped && vr_chance(&G, 1, 4)) {
+        running_pid = -1;
+        if (vr_chance(&G, 1, 2)) {
+            for (int k = 0; k < NP; k++) if (cmb_process_status(procs[k].pp) == CMB_PROCESS_RUNNING) cmb_process_stop(procs[k].pp, NULL);
+            cmb_event_queue_clear();
+            for (int k = 0; k < NP; k++) { cmb_process_terminate(procs[k].pp); cmb_process_destroy(procs[k].pp); }
+            VR_CNT("first_lives_ended_in_order");
+        } else { if (blocked) VR_CNT("first_lives_cut_off_with_processes_suspended"); else VR_CNT("first_lives_cut_off"); }
+        LIFE = 1;
+        world_setup();
+        if (vr_nviol == 0) drive(50000);
+    }
     if (vr_nviol == 0) world_teardown();
     uint64_t nb = 0; for (int i = 0; i < vr_ncnt; i++) if (strncmp(vr_cnt_name[i], "ret_", 4) == 0 && strstr(vr_cnt_name[i], "_by_")) nb += vr_cnt_val[i];
     if (nb >= 1) vr_mark_nontrivial();
